@@ -79,7 +79,8 @@ def gen_cases(tier, seed):
         for issuer in (fed.SP_EID, fed.SP2_EID, UNKNOWN):
             own = layout.get(issuer, {"acs": []})
             other = layout[fed.SP2_EID if issuer != fed.SP2_EID else fed.SP_EID]
-            urls = [("none", None), ("unregistered", "https://attacker.example.net/acs")]
+            # ("empty": the attribute is there and names no registered address - a supplied address like any other)
+            urls = [("none", None), ("unregistered", "https://attacker.example.net/acs"), ("empty", "")]
             for b, loc, idx, dflt in own["acs"]:
                 urls.append(("registered:%s" % idx, loc))
             for b, loc, idx, dflt in other["acs"][:2]:
@@ -88,7 +89,7 @@ def gen_cases(tier, seed):
                 base = own["acs"][0][1]
                 for k, v in near_misses(base).items():
                     urls.append(("near-miss:" + k, v))
-            indexes = [("none", None)] + [("known:%s" % i, str(i)) for b, l, i, d in own["acs"]] + [("unknown", "99"), ("garbage", "abc"), ("negative", "-1")]
+            indexes = [("none", None)] + [("known:%s" % i, str(i)) for b, l, i, d in own["acs"]] + [("unknown", "99"), ("garbage", "abc"), ("negative", "-1"), ("empty", "")]
             bindings = [("none", None), ("post", POST), ("redirect", REDIR), ("artifact", ART), ("soap", SOAP), ("paos", PAOS)]
             for (uk, url), (ik, idx), (bk, pb) in itertools.product(urls, indexes, bindings):
                 if url is not None and idx is not None and not (uk in ("unregistered", "near-miss:trailing-slash", "registered:1", "other-sp:1") and bk in ("none", "post")):
@@ -298,12 +299,12 @@ def run_case(case, ctx):
             locs = [e[1] for e in reg_by_binding.get(b, [])]
             if d not in locs:
                 key = "C09/destination-not-registered-for-requester-and-binding"
-                if case.get("url") and d == case["url"]:
+                if case.get("url") is not None and d == case["url"]:
                     key = "C09/answered-to-supplied-unregistered-address"
                 viol.append({"key": key, "what": desc + " -> binding %s destination %r; registered for that binding: %r" % (b, d, locs)})
-            elif case.get("url") and d != case["url"]:
+            elif case.get("url") is not None and d != case["url"]:
                 viol.append({"key": "C09/supplied-url-replaced-instead-of-refused", "what": desc + " -> %r" % d})
-            elif case.get("index") is not None and not case.get("url"):
+            elif case.get("index") is not None and case.get("url") is None:
                 want = [e[1] for e in reg_by_binding.get(b, []) if str(e[2]) == case["index"]]
                 if d not in want:
                     known = any(str(e[2]) == case["index"] for e in registered)
